@@ -20,8 +20,8 @@
    * the two `while x % alignment != 0` loops are modelled byte by byte with an internal fuel of
      |alignment| iterations, which Proofs/C12_linker.v shows to be always sufficient.
    * Diag codes: 1 "Multiple defined symbol", 2 "<name> already defined" (ObjectFile.add_symbol),
-     3 "Multiple entry points defined", 4 "Memory exceeds size", 5 "Undefined references"
-     (all CompilerError). Every other exception is [Internal].
+     3 "Multiple entry points defined", 4 "Memory exceeds size", 5 "Undefined references",
+     6 "Section placed more than once" (only with fix_twice)  (all CompilerError). Every other exception is [Internal].
    NO proofs in this file. *)
 From PV Require Import Lib.Py Lib.Val.
 From Coq Require Import String.
@@ -40,6 +40,13 @@ Inductive minput :=
   | ISection (n : string) | ISectionData (n : string) | ISymDef (n : string) | IAlign (a : Z).
 Record memory := mkMem { m_name : string; m_loc : Z; m_size : Z; m_inputs : list minput }.
 Record layout := mkLayout { l_mems : list memory; l_entry : option string }.
+
+(* one switch per defect for which a fix is proposed (true = fixed code):
+   fix_twice: fixes/C12-1-section-placed-twice.diff   (layout_sections raises CompilerError, Diag 6,
+              when a SECTION input names a section that is already part of an image)
+   fix_abs:   fixes/C12-2-absolute-symbol-relink.diff (inject_object keeps defined symbols whose
+              section is None unshifted instead of raising KeyError) *)
+Record lcfg := mk_lcfg { fix_twice : bool; fix_abs : bool }.
 
 Definition GLOBAL : string := "global"%string.
 Definition OBJECT : string := "object"%string.
@@ -171,7 +178,7 @@ Definition merge_global_symbol (syms : list sym) (name : string) (sc : option st
   end.
 
 (* one iteration of `for symbol in obj.symbols` *)
-Definition inject_sym (offs : list (string * Z)) (syms : list sym) (s : sym)
+Definition inject_sym (cfg : lcfg) (offs : list (string * Z)) (syms : list sym) (s : sym)
   : result (list sym * Z) :=
   vs <- match y_value s with
         | Some v =>
@@ -181,7 +188,8 @@ Definition inject_sym (offs : list (string * Z)) (syms : list sym) (s : sym)
                 | Some off => Ok (Some (off + v), Some sc)
                 | None => Internal KeyError
                 end
-            | None => Internal KeyError      (* section_offsets[None] *)
+            | None => if fix_abs cfg then Ok (Some v, None)    (* absolute symbol *)
+                      else Internal KeyError             (* section_offsets[None] *)
             end
         | None => Ok (None, None)
         end ;;
@@ -190,13 +198,13 @@ Definition inject_sym (offs : list (string * Z)) (syms : list sym) (s : sym)
   else inject_symbol syms (y_name s) (y_bind s) (snd vs) (fst vs) (y_typ s) (y_size s).
 
 (* returns the new ids in symbol order; symbol_id_mapping = combine (map y_id syms) newids *)
-Fixpoint inject_syms (offs : list (string * Z)) (syms : list sym) (inps : list sym)
+Fixpoint inject_syms (cfg : lcfg) (offs : list (string * Z)) (syms : list sym) (inps : list sym)
   : result (list sym * list Z) :=
   match inps with
   | [] => Ok (syms, [])
   | s :: r =>
-      '(syms1, id) <- inject_sym offs syms s ;;
-      '(syms2, ids) <- inject_syms offs syms1 r ;;
+      '(syms1, id) <- inject_sym cfg offs syms s ;;
+      '(syms2, ids) <- inject_syms cfg offs syms1 r ;;
       Ok (syms2, id :: ids)
   end.
 
@@ -214,9 +222,9 @@ Definition inject_reloc (offs : list (string * Z)) (idmap : list (Z * Z)) (r : r
 (* what inject_object records: section_offsets (in section order) and the new symbol ids *)
 Definition trace : Type := (list (string * Z) * list Z)%type.
 
-Definition inject_object (d o : obj) : result (obj * trace) :=
+Definition inject_object (cfg : lcfg) (d o : obj) : result (obj * trace) :=
   '(secs, offs) <- inject_sections (o_sects d) (o_sects o) ;;
-  '(syms, newids) <- inject_syms offs (o_syms d) (o_syms o) ;;
+  '(syms, newids) <- inject_syms cfg offs (o_syms d) (o_syms o) ;;
   let idmap := combine (map y_id (o_syms o)) newids in
   rels <- map_result (inject_reloc offs idmap) (o_relocs o) ;;
   entry <- match o_entry o with
@@ -232,12 +240,12 @@ Definition inject_object (d o : obj) : result (obj * trace) :=
            end ;;
   Ok (mkObj secs syms (o_relocs d ++ rels) (o_images d) entry, (offs, newids)).
 
-Fixpoint merge_objects (d : obj) (objs : list obj) : result (obj * list trace) :=
+Fixpoint merge_objects (cfg : lcfg) (d : obj) (objs : list obj) : result (obj * list trace) :=
   match objs with
   | [] => Ok (d, [])
   | o :: r =>
-      '(d1, t) <- inject_object d o ;;
-      '(d2, ts) <- merge_objects d1 r ;;
+      '(d1, t) <- inject_object cfg d o ;;
+      '(d2, ts) <- merge_objects cfg d1 r ;;
       Ok (d2, t :: ts)
   end.
 
@@ -278,11 +286,18 @@ Definition sd_name (n : string) : string := String.append "_$"%string (String.ap
 Definition with_sects (d : obj) (secs : list sect) : obj :=
   mkObj secs (o_syms d) (o_relocs d) (o_images d) (o_entry d).
 
+(* the fix's set `placed`: names of the sections that are part of an image so far
+   (dst.images is empty when layout_sections starts) *)
+Definition placed_so_far (d : obj) (names : list string) : list string :=
+  flat_map i_sects (o_images d) ++ names.
+
 (* one memory input; state = destination, current_address, image.sections *)
-Definition layout_input (st : obj * Z * list string) (i : minput) : result (obj * Z * list string) :=
+Definition layout_input (cfg : lcfg) (st : obj * Z * list string) (i : minput)
+  : result (obj * Z * list string) :=
   let '(d, cur, names) := st in
   match i with
   | ISection n =>
+      if fix_twice cfg && existsb (String.eqb n) (placed_so_far d names) then Diag 6 else
       let '(secs1, s) := get_section_create n (o_sects d) in
       cur1 <- align_up cur (s_align s) ;;
       Ok (with_sects d (set_sect (mkSect (s_name s) cur1 (s_align s) (s_data s)) secs1),
@@ -310,24 +325,24 @@ Definition layout_input (st : obj * Z * list string) (i : minput) : result (obj 
       cur1 <- align_up cur a ;; Ok (d, cur1, names)
   end.
 
-Fixpoint layout_inputs (st : obj * Z * list string) (l : list minput)
+Fixpoint layout_inputs (cfg : lcfg) (st : obj * Z * list string) (l : list minput)
   : result (obj * Z * list string) :=
   match l with
   | [] => Ok st
-  | i :: r => st1 <- layout_input st i ;; layout_inputs st1 r
+  | i :: r => st1 <- layout_input cfg st i ;; layout_inputs cfg st1 r
   end.
 
-Definition layout_memory (d : obj) (m : memory) : result obj :=
-  '(d1, cur, names) <- layout_inputs (d, m_loc m, []) (m_inputs m) ;;
+Definition layout_memory (cfg : lcfg) (d : obj) (m : memory) : result obj :=
+  '(d1, cur, names) <- layout_inputs cfg (d, m_loc m, []) (m_inputs m) ;;
   let img := mkImage (m_name m) (m_loc m) names in
   data <- image_data (o_sects d1) img ;;
   if len data >? m_size m then Diag 4
   else Ok (mkObj (o_sects d1) (o_syms d1) (o_relocs d1) (o_images d1 ++ [img]) (o_entry d1)).
 
-Fixpoint layout_sections (d : obj) (mems : list memory) : result obj :=
+Fixpoint layout_sections (cfg : lcfg) (d : obj) (mems : list memory) : result obj :=
   match mems with
   | [] => Ok d
-  | m :: r => d1 <- layout_memory d m ;; layout_sections d1 r
+  | m :: r => d1 <- layout_memory cfg d m ;; layout_sections cfg d1 r
   end.
 
 (* ------------------------------------------------------------------ check_undefined_symbols *)
@@ -349,7 +364,7 @@ Fixpoint inject_extra (syms : list sym) (extra : list (string * Z)) : result (li
 
 (* api.link(objects, layout, partial_link, entry=..., extra_symbols=...) up to and including
    check_undefined_symbols; returns the destination object and what each inject_object recorded *)
-Definition link_trace (objs : list obj) (lay : option layout) (partial : bool)
+Definition link_trace (cfg : lcfg) (objs : list obj) (lay : option layout) (partial : bool)
            (entry : option string) (extra : list (string * Z)) : result (obj * list trace) :=
   match objs with
   | [] => Internal ValueErrorI
@@ -364,7 +379,7 @@ Definition link_trace (objs : list obj) (lay : option layout) (partial : bool)
                        | None => Ok ([], None)
                        end ;;
       syms1 <- inject_extra syms0 extra ;;
-      '(d1, ts) <- merge_objects (mkObj [] syms1 [] [] eid) objs ;;
+      '(d1, ts) <- merge_objects cfg (mkObj [] syms1 [] [] eid) objs ;;
       if partial then
         match lay with
         | Some _ => Internal ValueErrorI
@@ -372,16 +387,16 @@ Definition link_trace (objs : list obj) (lay : option layout) (partial : bool)
         end
       else
         d2 <- match lay with
-              | Some l => layout_sections d1 (l_mems l)
+              | Some l => layout_sections cfg d1 (l_mems l)
               | None => Ok d1
               end ;;
         _ <- check_undefined_symbols d2 ;;
         Ok (d2, ts)
   end.
 
-Definition link (objs : list obj) (lay : option layout) (partial : bool)
+Definition link (cfg : lcfg) (objs : list obj) (lay : option layout) (partial : bool)
            (entry : option string) (extra : list (string * Z)) : result obj :=
-  r <- link_trace objs lay partial entry extra ;; Ok (fst r).
+  r <- link_trace cfg objs lay partial entry extra ;; Ok (fst r).
 
 (* ------------------------------------------------------------------ rendering for the harness *)
 #[global] Instance ToVal_sect : ToVal sect :=
